@@ -8,6 +8,8 @@ Decided (structural):
    drops exactly the residual; Stream::head returns the head of Unit/Cons;
  * builders keep clause order, element 0 is the head, the conjunction of elements 1.. the rest,
    empty clauses are skipped; onceo = condu over one clause; matcha/matchu delegate unchanged.
+ (round 4, shared) Conj::from_vec / from_array / from_conjunctions (the rest goals of a committed
+   clause) are total, order-preserving folds from `succeed`.
 """
 import mirlib
 import streams
@@ -306,6 +308,11 @@ def run(ctx, fb, cfg):
     check_builder(ctx, lib, R + "K6.builder", "Conda")
     check_builder(ctx, lib, R + "K6.builder", "Condu")
     check_delegation(ctx, lib, R + "K3.delegation")
+    # the rest goals of a committed clause run as the conjunction Conj::from_vec builds from them: in written
+    # order, every one of them (shared rule)
+    import builders
+
+    builders.check_all(ctx, lib, R + "K6.builders", only=("Conj",))
     # matcha / matchu commit on the *first goal* of an arm: the macro must hand each arm over as
     # [eq(term, pattern), body...] (template rule shared with C13)
     if cfg == "lib-default":
